@@ -252,7 +252,13 @@ META = {
                  "StaleKey only advances (fetch_max). Two classes where a changed header byte is still accepted are proved as counterexamples "
                  "and recorded as known findings. Tie: 94 tag/mask/length constants re-extracted with bridge lemmas; the Lean driver is run "
                  "against the real encoders/decoders with real aws-lc keys (both cipher suites, every byte position x several masks, "
-                 "truncated/extended tags, random byte strings) and against a real path::secret::Map reached through the production entry points."),
+                 "truncated/extended tags, random byte strings) and against a real path::secret::Map reached through the production entry points. "
+                 "The key-phase wrapper of the stream keys (path/secret/key.rs: two opener slots, needs_update, update, dedup, Once keys) is "
+                 "modelled with abstract generations: a packet that does not authenticate leaves the whole opener unchanged on both decrypt "
+                 "paths, the rotation flag rises only through an authenticated packet, forged traffic is invisible to the final state and every "
+                 "genuine packet of the current or next generation opens (keyphase_* theorems; the flag-before-authentication order is "
+                 "refuted); tied by statement-order extraction and by a differential run on the real wrapper keys obtained through the "
+                 "public Map / stream::crypto API."),
         "note": ("Trusted: Lean kernel (standard axioms), tools/extract.py, vh-dc harness, python oracles. AEAD/HMAC are assumed ideal (exercised, "
                  "not verified); hash-table internals, cleaner thread, capacity eviction of the map are not modelled."),
         "technique": "Lean 4 round-trip / byte-coverage / no-state-change theorems + regenerated-constant bridges + differential correspondence incl. exhaustive single-byte tampering",
